@@ -2,6 +2,7 @@ package sim
 
 import (
 	"context"
+	"encoding/json"
 	"fmt"
 	"sort"
 	"strings"
@@ -11,8 +12,14 @@ import (
 	"berty.tech/go-ipfs-log/keystore"
 	orbitdb "berty.tech/go-orbit-db"
 	"berty.tech/go-orbit-db/accesscontroller"
+	"berty.tech/go-ipfs-log/identityprovider"
+	"berty.tech/go-orbit-db/address"
 	"berty.tech/go-orbit-db/iface"
+	"berty.tech/go-orbit-db/stores/documentstore"
+	"berty.tech/go-orbit-db/stores/eventlogstore"
+	"berty.tech/go-orbit-db/stores/kvstore"
 	"berty.tech/go-orbit-db/stores/operation"
+	coreiface "github.com/ipfs/kubo/core/coreiface"
 )
 
 // Peer is one running OrbitDB instance (real code) on one incarnation of a simulated node.
@@ -25,6 +32,43 @@ type Peer struct {
 	Dir    string
 	Stores map[string]iface.Store // by address
 	Opts   *orbitdb.NewOrbitDBOptions
+	Knobs  Knobs
+}
+
+// Knobs are store-constructor options that CreateDBOptions cannot reach; they are applied by
+// re-registering the store types with wrapper constructors (public API).
+type Knobs struct {
+	Concurrency uint
+	RefCount    int // 0 = default (64)
+	MaxHistory  *int
+}
+
+// WithKnobs sets the knobs of the next StartPeer.
+func WithKnobs(kn Knobs) PeerOpt {
+	return func(p *Peer, _ *orbitdb.NewOrbitDBOptions) { p.Knobs = kn }
+}
+
+func (p *Peer) applyKnobs() {
+	kn := p.Knobs
+	wrap := func(inner iface.StoreConstructor) iface.StoreConstructor {
+		return func(ipfs coreiface.CoreAPI, id *identityprovider.Identity, addr address.Address, o *iface.NewStoreOptions) (iface.Store, error) {
+			if kn.Concurrency != 0 {
+				o.ReplicationConcurrency = kn.Concurrency
+			}
+			if kn.RefCount != 0 {
+				rc := kn.RefCount
+				o.ReferenceCount = &rc
+			}
+			if kn.MaxHistory != nil {
+				mh := *kn.MaxHistory
+				o.MaxHistory = &mh
+			}
+			return inner(ipfs, id, addr, o)
+		}
+	}
+	p.DB.RegisterStoreType("eventlog", wrap(eventlogstore.NewOrbitDBEventLogStore))
+	p.DB.RegisterStoreType("keyvalue", wrap(kvstore.NewOrbitDBKeyValue))
+	p.DB.RegisterStoreType("docstore", wrap(documentstore.NewOrbitDBDocumentStore))
 }
 
 // PeerOpt lets scenarios adjust NewOrbitDBOptions (e.g. the direct-channel factory).
@@ -49,6 +93,9 @@ func (k *K) StartPeer(n *Node, opts ...PeerOpt) (*Peer, error) {
 		return nil, err
 	}
 	p.DB = db
+	if p.Knobs != (Knobs{}) {
+		p.applyKnobs()
+	}
 	k.cleanups = append(k.cleanups, func() { go func() { _ = db.Close() }() })
 	k.W.mu.Lock()
 	k.W.tr("boot n%d inc%d", n.Idx, inc.N)
@@ -201,4 +248,46 @@ func EqMap(a, b map[string]string) bool {
 // wedged call becomes an observable error instead of a hang.
 func OpCtx(d time.Duration) (context.Context, context.CancelFunc) {
 	return context.WithTimeout(context.Background(), d)
+}
+
+
+// VisibleState is the canonical text of what the store's query API shows (by store type).
+func VisibleState(s iface.Store) string {
+	switch st := s.(type) {
+	case iface.KeyValueStore:
+		return "kv{" + MapStr(KVState(st)) + "}"
+	case iface.EventLogStore:
+		all := -1
+		ops, err := st.List(context.Background(), &iface.StreamOptions{Amount: &all})
+		if err != nil {
+			return "eventlog-error:" + err.Error()
+		}
+		var names []string
+		for _, o := range ops {
+			names = append(names, OpName(o))
+		}
+		return "log[" + strings.Join(names, " | ") + "]"
+	case iface.DocumentStore:
+		docs, err := st.Query(context.Background(), func(interface{}) (bool, error) { return true, nil })
+		if err != nil {
+			return "docs-error:" + err.Error()
+		}
+		var ds []string
+		for _, d := range docs {
+			b, _ := json.Marshal(d)
+			ds = append(ds, string(b))
+		}
+		sort.Strings(ds)
+		return "docs{" + strings.Join(ds, " | ") + "}"
+	}
+	return "?"
+}
+
+func LogHashSeq(s iface.Store) []string {
+	vs := LogValues(s)
+	out := make([]string, len(vs))
+	for i, e := range vs {
+		out[i] = e.GetHash().String()
+	}
+	return out
 }
